@@ -30,6 +30,7 @@ import (
 	"errors"
 	"fmt"
 	"reflect"
+	"sort"
 	"strings"
 
 	"github.com/apache/thrift/lib/go/thrift"
@@ -260,6 +261,25 @@ func init() {
 			tr.out.Reset() // likewise a request that was never flushed
 		}
 		return map[string]interface{}{"calls": recs}
+	})
+
+	// rpcnames <unit> <processor service>: the keys of the generated processor's map, sorted
+	RegisterCommand("rpcnames", func(a []string) interface{} {
+		pg, ok := services[a[0]+"|"+a[1]]
+		if !ok {
+			panic("driver: service not registered: " + a[0] + "|" + a[1])
+		}
+		sc := &script{unit: a[0], rec: &callRec{}}
+		m := reflect.ValueOf(pg.NewProcessor(sc.handle)).MethodByName("ProcessorMap")
+		if !m.IsValid() {
+			panic("driver: the processor has no ProcessorMap method")
+		}
+		names := []string{}
+		for _, k := range m.Call(nil)[0].MapKeys() {
+			names = append(names, k.String())
+		}
+		sort.Strings(names)
+		return map[string]interface{}{"names": names}
 	})
 
 	RegisterCommand("rpcraw", func(a []string) interface{} {
